@@ -37,6 +37,8 @@ def store_case(g, with_f8):
     if r.random() < 0.7: ops.append(("set", 1, gg(1), [g.pattern() for _ in range(r.randint(0, 3))]))
     if r.random() < 0.7: ops.append(("set", 1, lw(1), [[f"lw/{i}", r.choice(TRICKY)] for i in range(r.randint(0, 3))]))
     if r.random() < 0.3: ops.append(("set", 2, gg(2), ["nothing/here"]))
+    if r.random() < 0.6: ops.append(("set", 2, lw(2), [[f"lw2/{i}", r.choice(TRICKY)] for i in range(r.randint(1, 3))]))      # several clients, different wills
+    if r.random() < 0.3: ops.append(("set", 2, gg(2), [g.pattern() for _ in range(r.randint(1, 2))]))
     ops += [("dump",), ("flush", -1), ("fs",), ("restart",), ("dump",)]
     if r.random() < 0.5:        # second generation: both toggle states
         ops += [("conn", 1), ("dump",), ("set", 1, "second", 2), ("flush", -1), ("restart",), ("dump",), ("fs",)]
@@ -112,7 +114,7 @@ def run(v, tier, seed):
     cases = []
     n = 400 if tier == "quick" else 10000
     for i in range(n):
-        g = Gen(seed * 48611 + i, segs=["a", "b", "", "é", "t", "v"], depth=3, wild_in_keys=0.0)
+        g = Gen(seed * 48611 + i, segs=["a", "b", "", "é", "t", "v"] + (["$SYSTEM", "$SYS2", "$"] if i % 3 == 0 else []), depth=3, wild_in_keys=0.0)
         cases.append((f"s{i}", store_case(g, with_f8=(i % 4 == 0))))
     lay = layout_cases()
     cases += lay
